@@ -11,6 +11,7 @@ import (
 	"fmt"
 	"sort"
 	"strings"
+	"unicode/utf8"
 
 	"verifharness/internal/c04/fakepg"
 	"verifharness/internal/core"
@@ -77,6 +78,8 @@ type cellPlan struct {
 	lit    Cell  // literal spelling
 	ptext  []byte // text-format parameter
 	pbin   []byte // binary-format parameter
+	mark    []byte // a marker embedded in a raw-text literal (scanned for on the database side like the value itself)
+	noParam bool   // the value is only written as a literal (its text is outside the byte-level model of bound parameters)
 }
 
 func (cs *caseState) planCell(c *Col, id int) cellPlan {
@@ -102,6 +105,26 @@ func (cs *caseState) planCell(c *Col, id int) cellPlan {
 		v = []byte{}
 	}
 	p.plain = v
+	if !textual && c.Set != nil && rd.Chance(28) {
+		// a string literal that is NOT (necessarily) bytea escape text: backslashes in every position class, control
+		// characters, quotes, multi-byte UTF-8 – Acra's contract: valid escape text is decoded, anything else is
+		// protected as it is
+		text := genLitText(rd, 1+rd.Intn(5), false, rd.Chance(12))
+		p.mark = marker(rd, true)[:12]
+		k := rd.Intn(len(text) + 1)
+		for k > 0 && k < len(text) && !utf8.RuneStart(text[k]) {
+			k--
+		}
+		text = append(append(append([]byte{}, text[:k]...), p.mark...), text[k:]...)
+		if val, hexErr := refLitValue(text); !hexErr && !bytes.HasPrefix(text, []byte(`\x`)) {
+			p.plain = val
+			p.lit = Cell{K: 'L', B: text, Spell: rd.Intn(2)}
+			p.ptext, p.pbin = text, val
+			p.noParam = hasC1(text)
+			return p
+		}
+		p.mark = nil
+	}
 	if textual {
 		p.lit = Cell{K: 'L', B: v, Spell: rd.Intn(2)}
 		p.ptext, p.pbin = v, v
@@ -276,13 +299,19 @@ func (cs *caseState) targetCols(t *Tab, alias string, items []string) []*Col {
 func run(r *core.Run) {
 	r.Rule = "sessions of 1–12 statements generated FROM structured descriptions (INSERT with/without column list, 1–3 rows, casts, NULLs; UPDATE; SELECT star/list/qualified/alias; RETURNING), printed in several spellings, sent over the simple or the extended protocol (text and binary parameters and results) by a fake client through the real proxyFactory.New/PgProxy to a fake database; schemas of 1–4 tables with plain, AcraStruct and AcraBlock columns (untyped, bytes, str) and an unconfigured table; non-trivial = a statement that writes or reads a protected column; distinct by schema+statement tokens; plus value-level codec ops, protocol-state scripts (pipelining, errors, Sync), generated INSERT/UPDATE statements through the MySQL query encryptor, and the regression corpus of the three repaired defects"
 	corpus(r)
+	corpusRound5(r)
 	valueOps(r)
 	pendingOps(r)
 	mysqlOps(r)
 	formsOps(r)
+	litOps(r)
+	sqlprepOps(r)
 	n := r.N(40, 1500)
 	for i := 0; i < n; i++ {
 		sessionCase(r, i)
+	}
+	for i := 0; i < r.N(24, 900); i++ {
+		sqlPreparedCase(r, i)
 	}
 	m := r.N(40, 1500)
 	for i := 0; i < m; i++ {
@@ -378,6 +407,9 @@ func (cs *caseState) write(st *Stmt, plans [][]cellPlan, covered bool, ext bool,
 			}
 			if p.col.Set != nil {
 				cs.secrets = append(cs.secrets, p.plain)
+				if p.mark != nil {
+					cs.secrets = append(cs.secrets, p.mark)
+				}
 			}
 		}
 	}
@@ -392,6 +424,8 @@ func (cs *caseState) write(st *Stmt, plans [][]cellPlan, covered bool, ext bool,
 	}
 	for _, x := range rs {
 		if x.Err != "" {
+			// what reached the database is judged first: a statement forwarded with a plaintext is the failure to report
+			cs.scanSecrets(st.SQL())
 			r.Fail("statement-rejected", fmt.Sprintf("statement %q was rejected by the database after the proxy (%s %s); forwarded: %q", st.SQL(), x.Err, x.ErrMsg, lastSQL(cs.w.DB)))
 			return nil, nil, false
 		}
@@ -459,7 +493,7 @@ func (cs *caseState) doInsert(t *Tab) {
 			p := cs.planCell(c, id)
 			prow = append(prow, p)
 			covered = covered || (c.Set != nil && !p.null)
-			if ext && !p.null && rd.Chance(70) {
+			if ext && !p.null && !p.noParam && rd.Chance(70) {
 				bin := rd.Chance(40)
 				pp := param{bin: bin, data: p.ptext}
 				if bin {
@@ -558,7 +592,7 @@ func (cs *caseState) doUpdate(t *Tab) {
 		prow = append(prow, p)
 		covered = covered || (c.Set != nil && !p.null)
 		st.Sets = append(st.Sets, c.Name)
-		if ext && !p.null && rd.Chance(70) {
+		if ext && !p.null && !p.noParam && rd.Chance(70) {
 			bin := rd.Chance(40)
 			pp := param{bin: bin, data: p.ptext}
 			if bin {
